@@ -867,7 +867,9 @@ class _Parser(barectf_config_parse_common._Parser):
                     try:
                         for member_node in pkt_ctx_ft_extra_members_node:
                             member_node = list(member_node.values())[0]
-                            resolve_ft_alias_from(member_node, 'field-type')
+
+                            if type(member_node) is collections.OrderedDict:
+                                resolve_ft_alias_from(member_node, 'field-type')
                     except _ConfigurationParseError as exc:
                         _append_error_ctx(exc, f'`{pkt_ctx_ft_extra_members_prop_name}` property')
 
@@ -948,7 +950,9 @@ class _Parser(barectf_config_parse_common._Parser):
             if pkt_ctx_ft_extra_members_node is not None:
                 for member_node in pkt_ctx_ft_extra_members_node:
                     member_node = list(member_node.values())[0]
-                    apply_ft_inheritance(member_node, 'field-type')
+
+                    if type(member_node) is collections.OrderedDict:
+                        apply_ft_inheritance(member_node, 'field-type')
 
             apply_ft_inheritance(dst_node, 'event-record-common-context-field-type')
 
